@@ -67,6 +67,8 @@ def dispatch(disp, R, m, kw):
             return ori.shepperd(R.copy())
         if disp == "DCM.to_quaternion":
             return DCM(R.copy()).to_quaternion()
+        if disp == "DCM.to_q":
+            return DCM(R.copy()).to_q()
         if disp == "Quaternion(dcm=)":
             return Quaternion(dcm=R.copy())
         n, pos = [int(x) for x in disp.split("#")[1].split("@")]
@@ -81,6 +83,8 @@ def dispatch(disp, R, m, kw):
         return getattr(ori, m)(R.copy())
     if disp == "DCM.to_quaternion":
         return DCM(R.copy()).to_quaternion(method=m, **kw)
+    if disp == "DCM.to_q":          # the documented synonym
+        return DCM(R.copy()).to_q(method=m, **kw)
     if disp == "Quaternion(dcm=)":
         return Quaternion(dcm=R.copy(), method=m, **kw)
     if disp.startswith("QuaternionArray(DCM=)"):
@@ -94,7 +98,7 @@ def dispatch(disp, R, m, kw):
 DISPATCHERS = ["function", "DCM.to_quaternion", "Quaternion(dcm=)",
                "QuaternionArray(DCM=)#1@0", "QuaternionArray(DCM=)#2@1", "QuaternionArray(DCM=)#5@2",
                "function[F-order]", "DCM.to_quaternion[transposed-view]", "Quaternion(dcm=)[F-order]", "QuaternionArray(DCM=)[F-order]#3@1",
-               "QuaternionArray.from_DCM(inplace=False)#3@2", "QuaternionArray(DCM=, versors=False)#2@0"]
+               "QuaternionArray.from_DCM(inplace=False)#3@2", "QuaternionArray(DCM=, versors=False)#2@0", "DCM.to_q"]
 
 
 def check_case(t, rec, cls, mirror_checked=True):
